@@ -8,6 +8,10 @@ CLAIMED = {
    note='Trusted: Coq kernel+vm_compute, tools/gen.py, extraction (ExtrOcamlBasic) + oracle/driver.ml, the hand transcription of crc*_fast.c / sha256.c into Gallina (validated by ~17k differential calls per run). CLMUL path not modelled (explored only).',
    technique='Coq proof over generated tables + GF(2) linearity; differential correspondence with extracted OCaml oracle', ref='§6 C14'),
 }
+CLAIMED['C15'] = dict(
+   text='Coq theorems (no axioms): delta decode(encode)=id for every data and distance, length preserved; ARM BCJ decode(encode)=id for every data and every 4-aligned start offset (unaligned offsets provably break it), length preservation of the stride-4 filters. All eight BCJ filters and delta are transcribed to Gallina (Bcj.v, x86/IA-64 tables regenerated from source) and tied to the code by white-box differential runs of the static *_code functions, the streaming simple_coder under random slicing, the one-shot API, plus implementation-only round trips; the Coq reference itself is validated against released liblzma 5.4.1.',
+   note='Partial: x86, ARM-Thumb, ARM64, PowerPC, SPARC, IA-64, RISC-V round trips and the simple_coder buffering protocol are explored + tied by correspondence, not proved. Trusted: Coq kernel, gen_bcj regex translator, extraction, driver glue, hand transcription.',
+   technique='Coq proof (modular arithmetic + stride lifting) + white-box differential correspondence', ref='§6 C15')
 REASONS_PENDING = 'not yet built in this round (work in progress; see DESIGN.md §10 order of work)'
 props = [json.loads(l) for l in open(os.path.join(V, 'properties.jsonl'))]
 checks, na = [], []
